@@ -576,7 +576,7 @@ pub fn run_c09(opt: &Options) -> i32 {
     let (max_p, extra, hist, tables) = if opt.thorough() {
         (16u64, opt.scaled(6_000), 1_200u64, opt.scaled(200_000))
     } else {
-        (9u64, opt.scaled(400), 160u64, opt.scaled(8_000))
+        (10u64, opt.scaled(1_500), 240u64, opt.scaled(60_000))
     };
     let mut configs = all_configs(max_p);
     // larger random configurations
